@@ -1,7 +1,7 @@
 (* Run.v — entry point used by the extracted driver and by the in-Coq
    cross-check: one case (as written by the harness) and the implementation's
    observation in, the model's observation and the spec verdicts out. *)
-From Model Require Import Str Sexp Http Cors Template Table Curly DetectRoute Jsr311 Router Options Dispatch Response.
+From Model Require Import Str Sexp Http Cors Template Table Curly DetectRoute Jsr311 Router Options Dispatch Response Pool.
 From Spec Require Import CorsSpec RouteSpec RankSpec DispatchSpec.
 
 Definition verdict (name : string) (b : bool) : sexp := Lst [A (L name); of_bool b].
@@ -517,6 +517,68 @@ Definition run_resp (c impl : sexp) : sexp :=
         Lst [ verdict "wf_history" wf; verdict "writer_fails" failing; verdict "encoded" comp;
               verdict "through_container" (Z.eqb (sx_int (sx_nth 4 c)) 1) ] ].
 
+(* ---- domain "pool" (C13) ----
+   case: (oracles provider cap mode ops clients rounds); impl: (trace blocked handed-out-while-held released-unknown wrong-bodies) *)
+Definition tri_get {A} (t : A * A * A) (k : nat) : A :=
+  match k with 0 => fst (fst t) | 1 => snd (fst t) | _ => snd t end.
+Definition tri_set {A} (t : A * A * A) (k : nat) (v : A) : A * A * A :=
+  match k with 0 => (v, snd (fst t), snd t) | 1 => (fst (fst t), v, snd t) | _ => (fst t, v) end.
+
+(* a sequential history on the bounded cache, driven through Pool.client_step: for every
+   acquire the index of the earliest acquire that returned the same object, or -1 *)
+Fixpoint pool_hist (cap : nat) (chans : list nat * list nat * list nat) (nexts : nat * nat * nat)
+         (acquired : list (nat * nat)) (ops : list sexp) : list Z :=
+  match ops with
+  | [] => []
+  | op :: rest =>
+      if Z.eqb (sx_int (sx_nth 0 op)) 0 then
+        let k := sx_nat (sx_nth 1 op) in
+        match client_step cap (tri_get chans k) (tri_get nexts k) {| c_held := None; c_prog := [PTryRecvElseNew] |} with
+        | Some (ch, nx, c) =>
+            let x := match c_held c with Some x => x | None => 0 end in
+            let first := (fix go (i : Z) (l : list (nat * nat)) : Z :=
+                            match l with
+                            | [] => (-1)%Z
+                            | (k', x') :: l' => if Nat.eqb k k' && Nat.eqb x x' then i else go (i + 1)%Z l'
+                            end) 0%Z acquired in
+            first :: pool_hist cap (tri_set chans k ch) (tri_set nexts k nx) (acquired ++ [(k, x)]) rest
+        | None => []
+        end
+      else
+        let '(k, x) := nth (sx_nat (sx_nth 1 op)) acquired (0, 0) in
+        match client_step cap (tri_get chans k) (tri_get nexts k) {| c_held := Some x; c_prog := [PTrySend] |} with
+        | Some (ch, nx, _) => pool_hist cap (tri_set chans k ch) nexts acquired rest
+        | None => []
+        end
+  end.
+
+Definition run_pool (c impl : sexp) : sexp :=
+  let provider := sx_int (sx_nth 1 c) in
+  let cap := sx_nat (sx_nth 2 c) in
+  let mode := sx_int (sx_nth 3 c) in
+  let ops := sx_list (sx_nth 4 c) in
+  let trace := if Z.eqb mode 0 && Z.eqb provider 1
+               then pool_hist cap (seq 0 cap, seq 0 cap, seq 0 cap) (cap, cap, cap) [] ops else [] in
+  let cls := (if Z.eqb mode 0 then "history" else if Z.eqb mode 1 then "direct-concurrent" else "container-concurrent")%string in
+  Lst [ Lst [Lst (map I trace); I 0; I 0; I 0; I 0];
+        Lst [ verdict "c13_never_blocks" (Z.eqb (sx_int (sx_nth 1 impl)) 0);
+              verdict "c13_never_handed_out_while_held" (Z.eqb (sx_int (sx_nth 2 impl)) 0);
+              verdict "c13_released_exactly_once" (Z.eqb (sx_int (sx_nth 3 impl)) 0);
+              verdict "c13_own_payload" (Z.eqb (sx_int (sx_nth 4 impl)) 0) ];
+        A (L cls);
+        Lst [ verdict "bounded_cache" (Z.eqb provider 1); verdict "capacity_0_or_1" (Nat.leb cap 1);
+              verdict "concurrent" (negb (Z.eqb mode 0)) ] ].
+
+(* ---- domain "mut" (C12): impl = (wrong-untouched wrong-changing panics blocked) ---- *)
+Definition run_mut (c impl : sexp) : sexp :=
+  Lst [ Lst [I 0; I 0; I 0; I 0];
+        Lst [ verdict "c12_untouched_answered_as_always" (Z.eqb (sx_int (sx_nth 0 impl)) 0);
+              verdict "c12_changing_answered_by_an_existing_state" (Z.eqb (sx_int (sx_nth 1 impl)) 0);
+              verdict "c12_no_panic" (Z.eqb (sx_int (sx_nth 2 impl)) 0);
+              verdict "c12_no_deadlock" (Z.eqb (sx_int (sx_nth 3 impl)) 0) ];
+        A (L (if Z.eqb (sx_int (sx_nth 1 c)) 0 then "curly" else "jsr311")%string);
+        Lst [ verdict "via_servehttp" (negb (Z.eqb (sx_int (sx_nth 2 c)) 0)) ] ].
+
 Definition run_case (c impl : sexp) : sexp :=
   let dom := sx_str (sx_nth 0 c) in
   if str_eqb dom (L "cors") then run_cors (sx_nth 1 c) impl
@@ -527,4 +589,6 @@ Definition run_case (c impl : sexp) : sexp :=
   else if str_eqb dom (L "perm") then run_perm (sx_nth 1 c) impl
   else if str_eqb dom (L "disp") then run_disp (sx_nth 1 c) impl
   else if str_eqb dom (L "resp") then run_resp (sx_nth 1 c) impl
+  else if str_eqb dom (L "pool") then run_pool (sx_nth 1 c) impl
+  else if str_eqb dom (L "mut") then run_mut (sx_nth 1 c) impl
   else Lst [A (L "unknown-domain")].
